@@ -16,8 +16,10 @@ import Mathlib.Analysis.SpecialFunctions.Gaussian.GaussianIntegral
 import Mathlib.Analysis.SpecialFunctions.Integrals.Basic
 import Mathlib.MeasureTheory.Integral.Gamma
 import Mathlib.MeasureTheory.Integral.IntegralEqImproper
+import Mathlib.Analysis.SpecialFunctions.Trigonometric.InverseDeriv
+import Mathlib.Analysis.SpecialFunctions.ImproperIntegrals
 namespace GSV.Lemmas.CovFn
-open GSV GSV.Transc GSV.Model.CovFn MeasureTheory Set
+open GSV GSV.Transc GSV.Model.CovFn MeasureTheory Set Filter Topology
 
 
 theorem fmin_real (a b : ℝ) : fmin a b = min a b := by
@@ -187,5 +189,130 @@ theorem integral_stableCor (a : ℝ) (ha : 0 < a) :
   have := _root_.integral_exp_neg_rpow ha
   rw [add_comm]
   simpa [stableCor] using this
+
+/-! Circular: antiderivative on the unit interval -/
+
+theorem circularInner_real (h : ℝ) :
+    circularInner h = 2 / Real.pi * (Real.arccos h - h * Real.sqrt (1 - h ^ 2)) := by
+  simp [circularInner]
+
+/-- antiderivative of `arccos x - x √(1-x²)` on `(-1, 1)` -/
+theorem hasDerivAt_circular_prim (x : ℝ) (h0 : -1 < x) (h1 : x < 1) :
+    HasDerivAt (fun x : ℝ => x * Real.arccos x - Real.sqrt (1 - x ^ 2) + (1 - x ^ 2) * Real.sqrt (1 - x ^ 2) / 3)
+      (Real.arccos x - x * Real.sqrt (1 - x ^ 2)) x := by
+  have hpos : 0 < 1 - x ^ 2 := by nlinarith
+  have hs0 : 0 < Real.sqrt (1 - x ^ 2) := Real.sqrt_pos.mpr hpos
+  have hq : HasDerivAt (fun x : ℝ => 1 - x ^ 2) (-(2 * x)) x := by
+    simpa using ((hasDerivAt_pow 2 x).const_sub 1)
+  have hs : HasDerivAt (fun x : ℝ => Real.sqrt (1 - x ^ 2)) (-(2 * x) / (2 * Real.sqrt (1 - x ^ 2))) x :=
+    hq.sqrt hpos.ne'
+  have ha := Real.hasDerivAt_arccos (ne_of_gt h0) (ne_of_lt h1)
+  have h := (((hasDerivAt_id' x).fun_mul ha).fun_sub hs).fun_add ((hq.fun_mul hs).div_const 3)
+  refine h.congr_deriv ?_
+  have hsq : Real.sqrt (1 - x ^ 2) * Real.sqrt (1 - x ^ 2) = 1 - x ^ 2 := Real.mul_self_sqrt hpos.le
+  field_simp
+  nlinarith [hsq]
+
+theorem circularInner_one : circularInner (1:ℝ) = 0 := by simp [circularInner]
+
+theorem circularCor_clamp (h : ℝ) : circularCor h = circularInner (min |h| 1) := by
+  by_cases hh : |h| < 1
+  · simp [circularCor, hh, min_eq_left hh.le]
+  · simp [circularCor, hh, min_eq_right (not_lt.mp hh), circularInner_one]
+
+theorem integral_circular_unit : ∫ x in (0:ℝ)..1, circularCor x = 4 / (3 * Real.pi) := by
+  have h1 : ∫ x in (0:ℝ)..1, circularCor x
+      = ∫ x in (0:ℝ)..1, 2 / Real.pi * (Real.arccos x - x * Real.sqrt (1 - x ^ 2)) := by
+    refine intervalIntegral.integral_congr (fun x hx => ?_)
+    rw [uIcc_of_le zero_le_one] at hx
+    simp only [circularCor_clamp, abs_of_nonneg hx.1, min_eq_left hx.2, circularInner_real]
+  have hc := Real.continuous_arccos
+  have hF : Continuous (fun x : ℝ => x * Real.arccos x - Real.sqrt (1 - x ^ 2)
+      + (1 - x ^ 2) * Real.sqrt (1 - x ^ 2) / 3) := by fun_prop
+  have hf : Continuous (fun x : ℝ => Real.arccos x - x * Real.sqrt (1 - x ^ 2)) := by fun_prop
+  have key := intervalIntegral.integral_eq_sub_of_hasDerivAt_of_le zero_le_one hF.continuousOn
+    (fun x hx => hasDerivAt_circular_prim x (by linarith [hx.1]) hx.2) (hf.intervalIntegrable _ _)
+  rw [h1, intervalIntegral.integral_const_mul, key]
+  simp [Real.arccos_zero]
+  field_simp
+  ring
+
+/-! Matern slices, Rational α = 1 -/
+
+/-- `∫₀^∞ g(a |h|) dh = a⁻¹ ∫₀^∞ g` -/
+theorem integral_comp_mul_abs (g : ℝ → ℝ) (a : ℝ) (ha : 0 < a) :
+    ∫ h in Ioi (0:ℝ), g (a * |h|) = a⁻¹ * ∫ x in Ioi (0:ℝ), g x := by
+  have h1 : ∫ h in Ioi (0:ℝ), g (a * |h|) = ∫ h in Ioi (0:ℝ), g (a * h) := by
+    refine setIntegral_congr_fun measurableSet_Ioi (fun r hr => ?_)
+    simp only [abs_of_pos (show (0:ℝ) < r from hr)]
+  rw [h1, integral_comp_mul_left_Ioi g 0 ha]
+  simp
+
+theorem tendsto_poly_exp_neg (c0 c1 c2 : ℝ) :
+    Tendsto (fun x : ℝ => -((c0 + c1 * x + c2 * x ^ 2) * Real.exp (-x))) atTop (𝓝 0) := by
+  have h0 := Real.tendsto_pow_mul_exp_neg_atTop_nhds_zero 0
+  have h1 := Real.tendsto_pow_mul_exp_neg_atTop_nhds_zero 1
+  have h2 := Real.tendsto_pow_mul_exp_neg_atTop_nhds_zero 2
+  have := (((h0.const_mul c0).add (h1.const_mul c1)).add (h2.const_mul c2)).neg
+  simp only [mul_zero, add_zero, neg_zero] at this
+  refine this.congr (fun x => ?_)
+  ring
+
+theorem integral_matern32_core : ∫ x in Ioi (0:ℝ), (1 + x) * Real.exp (-x) = 2 := by
+  have hd : ∀ x ∈ Ici (0:ℝ), HasDerivAt (fun x : ℝ => -((2 + 1 * x + 0 * x ^ 2) * Real.exp (-x)))
+      ((1 + x) * Real.exp (-x)) x := by
+    intro x _
+    have he : HasDerivAt (fun x : ℝ => Real.exp (-x)) (-Real.exp (-x)) x := by
+      simpa using (hasDerivAt_neg x).exp
+    have hp : HasDerivAt (fun x : ℝ => 2 + 1 * x + 0 * x ^ 2) 1 x := by
+      have := (((hasDerivAt_id' x).const_mul (1:ℝ)).const_add 2).fun_add ((hasDerivAt_pow 2 x).const_mul (0:ℝ))
+      exact this.congr_deriv (by ring)
+    exact ((hp.fun_mul he).fun_neg).congr_deriv (by ring)
+  rw [integral_Ioi_of_hasDerivAt_of_nonneg' hd (fun x hx => by have := Real.exp_pos (-x); have : (0:ℝ) < x := hx; positivity)
+    (tendsto_poly_exp_neg 2 1 0)]
+  simp
+
+theorem integral_matern52_core : ∫ x in Ioi (0:ℝ), (1 + x + x ^ 2 / 3) * Real.exp (-x) = 8 / 3 := by
+  have hd : ∀ x ∈ Ici (0:ℝ), HasDerivAt (fun x : ℝ => -((8 / 3 + 5 / 3 * x + 1 / 3 * x ^ 2) * Real.exp (-x)))
+      ((1 + x + x ^ 2 / 3) * Real.exp (-x)) x := by
+    intro x _
+    have he : HasDerivAt (fun x : ℝ => Real.exp (-x)) (-Real.exp (-x)) x := by
+      simpa using (hasDerivAt_neg x).exp
+    have hp : HasDerivAt (fun x : ℝ => 8 / 3 + 5 / 3 * x + 1 / 3 * x ^ 2) (5 / 3 + 2 / 3 * x) x := by
+      have := (((hasDerivAt_id' x).const_mul (5 / 3:ℝ)).const_add (8 / 3)).fun_add ((hasDerivAt_pow 2 x).const_mul (1 / 3:ℝ))
+      exact this.congr_deriv (by norm_num; ring)
+    exact ((hp.fun_mul he).fun_neg).congr_deriv (by ring)
+  rw [integral_Ioi_of_hasDerivAt_of_nonneg' hd (fun x hx => by have := Real.exp_pos (-x); have : (0:ℝ) < x := hx; positivity)
+    (tendsto_poly_exp_neg (8 / 3) (5 / 3) (1 / 3))]
+  simp
+
+theorem sqrt_lit_pos (c : ℝ) (hc : 0 < c) : 0 < Real.sqrt c := Real.sqrt_pos.mpr hc
+
+theorem integral_matern12Cor : ∫ h in Ioi (0:ℝ), matern12Cor h = 1 / Real.sqrt 0.5 := by
+  have := integral_comp_mul_abs (fun x => Real.exp (-x)) (Real.sqrt 0.5) (sqrt_lit_pos _ (by norm_num))
+  rw [integral_exp_neg_Ioi_zero] at this
+  simpa [matern12Cor] using this
+
+theorem integral_matern32Cor : ∫ h in Ioi (0:ℝ), matern32Cor h = 2 / Real.sqrt 1.5 := by
+  have := integral_comp_mul_abs (fun x => (1 + x) * Real.exp (-x)) (Real.sqrt 1.5) (sqrt_lit_pos _ (by norm_num))
+  rw [integral_matern32_core] at this
+  simp only [matern32Cor, sqrt_real, fabs_real, exp_real]
+  push_cast
+  rw [this]; ring
+
+theorem integral_matern52Cor : ∫ h in Ioi (0:ℝ), matern52Cor h = 8 / 3 / Real.sqrt 2.5 := by
+  have := integral_comp_mul_abs (fun x => (1 + x + x ^ 2 / 3) * Real.exp (-x)) (Real.sqrt 2.5) (sqrt_lit_pos _ (by norm_num))
+  rw [integral_matern52_core] at this
+  simp only [matern52Cor, sqrt_real, fabs_real, exp_real, npow_real]
+  push_cast
+  rw [this]; ring
+
+/-- Rational with `alpha = 1`: `∫₀^∞ (1 + h²)⁻¹ = π / 2` -/
+theorem integral_rationalCor_one : ∫ h in Ioi (0:ℝ), rationalCor 1 h = Real.pi / 2 := by
+  have := integral_Ioi_inv_one_add_sq (i := 0)
+  simp only [Real.arctan_zero, sub_zero] at this
+  rw [← this]
+  refine setIntegral_congr_fun measurableSet_Ioi (fun x _ => ?_)
+  simp [rationalCor, Real.rpow_neg_one]
 
 end GSV.Lemmas.CovFn
